@@ -174,6 +174,20 @@ def check_greedy(run, A):
     # works on a copy of the score matrix
     ok_copy = retire_row is not None and any(is_call_to(x, 'method:copy', 'numpy.copy', 'numpy.array') for x in walk_terms(retire_row[0].term.args[0]))
     run.check(ok_copy, 'R-MUT', 'greedy assignment: scores are retired in a copy', fn.loc(), '', 'the caller\'s score matrix is overwritten', construct=f'R-MUT::{q}::copy')
+    # ... a copy of the scores AS GIVEN: the greedy search takes the global arg-max of the whole matrix, which is not invariant to offsets per row / column or to rescaling
+    # of single rows (the optimal assignment is) - a "reduced" or normalised matrix makes it pick other pairs
+    if ok_copy:
+        copies = [x for x in walk_terms(retire_row[0].term.args[0]) if is_call_to(x, 'method:copy', 'numpy.copy', 'numpy.array')]
+        src = strip_views(call_parts(copies[-1])[1][0]) if copies and call_parts(copies[-1])[1] else None
+        while src is not None and (is_call_to(src, 'numpy.asarray', 'numpy.ascontiguousarray', 'numpy.reshape') or src.op == 'refine'):
+            src = strip_views(call_arg(src, 0)) if src.op != 'refine' else strip_views(src.args[0])
+        if src is not None:
+            given = src.op == 'param' and src.args[0] == 'score_matrix'
+            arith = src.op in ('binop', 'iop') and any(x.op == 'param' and x.args[0] == 'score_matrix' for x in walk_terms(src, into_mu=False))
+            if given or arith:
+                run.check(given, 'R-SEL', 'greedy assignment: the scores searched are the scores given', fn.loc(getattr(src, 'node', None)), '',
+                          f'the matrix the greedy search works on is `{norm_stmt(src.node)[:80]}`: the global arg-max is not invariant to such a transformation of the scores',
+                          construct=f'R-SEL::{q}::scores-as-given')
 
 
 # ------------------------------------------------------------------------------------------------ provenance of mappings
